@@ -5,7 +5,8 @@ Property theorems only. They are about `Dedup.deduplicatedTaxa`, the model of
 `paroxython/map_taxonomy.py: deduplicated_taxa` (loops, Counter operations and POSIX `commonpath`
 transcribed in `Model/Bag.lean`, `Model/Dedup.lean`), for **every** list of taxa whose names are
 strictly sorted (code-point order, as `sorted(acc.items())` yields) and clean (no empty or `.`
-segment), and whose bags are dicts with positive counts — any number of roots, any characters in the
+segment, except that ONE trailing `/` is allowed: the default taxonomy produces
+`flow/exception/catch/`), and whose bags are dicts with positive counts — any number of roots, any characters in the
 names, in particular punctuation sorting before `/` between a taxon and its descendants.
 
 `cnt T n s` is the raw count of span `s` for name `n`; "more specific" = proper segment-prefix
@@ -15,6 +16,7 @@ import Paroxy.Spec.Dedup
 import Paroxy.Proofs.DedupLift
 import Paroxy.Proofs.Commonpath
 import Paroxy.Proofs.DedupSpec
+import Paroxy.Proofs.ToTaxa
 namespace Paroxy.Props.C10
 open Paroxy Paroxy.Dedup Paroxy.Spec.Dedup
 variable {σ : Type} [DecidableEq σ]
@@ -79,6 +81,33 @@ theorem C10_exec_forms (T out : List (Name × Bag σ)) :
   ⟨DedupSpec.noInventionB_iff T out, DedupSpec.unsharedKeptB_iff descB T out,
     DedupSpec.coveredLostB_iff descB T out⟩
 
+/-- **C10 (through `Taxonomy.to_taxa`).** What `to_taxa` feeds to `deduplicated_taxa` —
+`sorted(acc.items())` after the accumulation loop, from ANY state of the instance, any oracle, any
+labels — is strictly sorted by name and has dict bags with positive counts. So the three clauses hold
+of the result of `to_taxa` as soon as the taxon names the taxonomy produces are admissible
+(`CleanNames`: the only hypothesis left, a property of the taxonomy's replacement patterns). -/
+theorem C10_to_taxa (o : Taxo.Oracle) (st : Taxo.State) (labels : List (Taxo.Str × List σ)) :
+    let raw := Taxo.sortTaxa (Taxo.accumulate o st [] labels).2
+    StrictSorted (raw.map Prod.fst) ∧ GoodBags raw ∧
+      (CleanNames (raw.map Prod.fst) →
+        ∃ out, (Taxo.toTaxa o st labels).2 = .ok out ∧
+          NoInvention raw out ∧ UnsharedKept descB raw out ∧ CoveredLost descB raw out) := by
+  intro raw
+  have hacc : ToTaxa.AccOK (Taxo.accumulate o st [] labels).2 :=
+    ToTaxa.accOK_accumulate o labels st [] ⟨by simp, by intro e he; cases he⟩
+  have hs : StrictSorted (raw.map Prod.fst) := ToTaxa.strictSorted_sortTaxa hacc.1
+  have hg : GoodBags raw := by
+    intro e he
+    exact hacc.2 e ((ToTaxa.sortTaxa_perm _).mem_iff.mp he)
+  refine ⟨hs, hg, fun hc => ?_⟩
+  refine ⟨_, C10_model_clean raw hs hc, ?_, ?_, ?_⟩
+  · exact DedupLift.noInvention_dedup Commonpath.ancRel_descB raw (Commonpath.nodup_of_sorted hs)
+      (Commonpath.order_of_sorted hs) hg
+  · exact DedupLift.unsharedKept_dedup Commonpath.ancRel_descB raw (Commonpath.nodup_of_sorted hs)
+      (Commonpath.order_of_sorted hs) hg
+  · exact DedupLift.coveredLost_dedup Commonpath.ancRel_descB raw (Commonpath.nodup_of_sorted hs)
+      (Commonpath.order_of_sorted hs) hg
+
 /-! ### Non-vacuity: the input on which the early `break` of the original code was wrong.
 
 Names `a`, `a-b/x`, `a/y` (`-` sorts before `/`, so the unrelated root `a-b` sits between `a` and its
@@ -97,5 +126,24 @@ example : deduplicatedTaxa ex
     = .ok [(['a', '-', 'b', '/', 'x'], [(7, 1)]), (['a', '/', 'y'], [(7, 1)])] := by
   rfl
 example : cnt ex ['a'] 7 = 1 ∧ nearestTotal descB ex ['a'] 7 = 1 := by decide
+
+/-! ### Non-vacuity: a trailing `/`, as the default taxonomy produces for `except MyError:`
+(`flow/exception/catch/\\1` with a non-participating group). `flow/exception/catch/` is a child of
+`flow/exception/catch` and a sibling of `flow/exception/catch/ValueError`. -/
+
+def exCatch : List (Name × Bag Nat) :=
+  [("flow/exception/catch".toList, [(3, 2)]), ("flow/exception/catch/".toList, [(3, 1)]),
+   ("flow/exception/catch/ValueError".toList, [(3, 1), (5, 1)])]
+
+example : StrictSorted (exCatch.map Prod.fst) := by unfold StrictSorted; decide
+example : CleanNames (exCatch.map Prod.fst) := by
+  have : cleanNamesB (exCatch.map Prod.fst) = true := by decide
+  simpa [cleanNamesB, CleanNames, List.all_eq_true] using this
+example : GoodBags exCatch := (DedupSpec.goodBagsB_iff exCatch).mp (by decide)
+example : cleanB "flow/exception/catch/".toList = false := by decide
+example : deduplicatedTaxa exCatch
+    = .ok [("flow/exception/catch/".toList, [(3, 1)]),
+           ("flow/exception/catch/ValueError".toList, [(3, 1), (5, 1)])] := by
+  rfl
 
 end Paroxy.Props.C10
